@@ -1,6 +1,7 @@
 (* C10 Filters never give a false negative, in memory, on file, merged or off-loaded.
    This file contains statements only; every proof is `exact <lemma>`. *)
-Require Import Pearl.Base.Prelude Pearl.Base.LE Pearl.Generated.Pure Pearl.Filter.Bloom Pearl.Filter.BloomProofs.
+Require Import Pearl.Base.Prelude Pearl.Base.LE Pearl.Generated.Pure Pearl.Filter.Bloom Pearl.Filter.BloomProofs
+               Pearl.Filter.Hier Pearl.Filter.HierProofs Pearl.Filter.Combined Pearl.Filter.CombinedProofs Pearl.Base.AHash.
 
 Section C10.
 Context {key : Type}.
@@ -38,6 +39,65 @@ Proof. exact (bloom_merge_all_set hash). Qed.
 
 End C10.
 
+(* ---- merged filters of blob groups (src/filter/hierarchical.rs), for EVERY filter type ----
+   Whatever the filter type, if merging two good filters answers "maybe" whenever one side does and off-loading
+   only turns answers into "maybe", then after every sequence of push / pop / remove / offload-all /
+   offload_buffer(needed, level) (with its early returns), a child that is still present and whose own filter, as
+   pushed, answers "maybe" for k is yielded by iter_possible_childs k: no group filter hides it. *)
+Theorem C10_hierarchy_never_hides_a_child :
+  forall (key F : Type) (contains : F -> key -> bool) (merge : F -> F -> option F) (offload : F -> F)
+         (mem : F -> N) (good : F -> Prop),
+    (forall (a b c : F) (k : key), good a -> good b -> merge a b = Some c ->
+       contains a k = true \/ contains b k = true -> contains c k = true) ->
+    (forall a b c : F, good a -> good b -> merge a b = Some c -> good c) ->
+    (forall (f : F) (k : key), good f -> contains f k = true -> contains (offload f) k = true) ->
+    (forall f : F, good f -> good (offload f)) ->
+    forall (group : nat) (ops : list (hop F)) (c : nat) (f : F) (k : key),
+      (0 < group)%nat -> Forall good (pushed F ops) ->
+      nth_error (pushed F ops) c = Some f ->
+      present F (run_h F merge offload mem group ops) c = true ->
+      contains f k = true ->
+      In c (iter_possible key F contains (run_h F merge offload mem group ops) k).
+Proof. exact iter_complete. Qed.
+
+(* every child id appears exactly once among the leaves, in push order, whatever was popped / removed / off-loaded *)
+Theorem C10_hierarchy_leaves_exact :
+  forall (F : Type) (merge : F -> F -> option F) (offload : F -> F) (mem : F -> N) (group : nat) (ops : list (hop F)),
+    concat (map (hn_leaves F) (h_nodes F (run_h F merge offload mem group ops))) = seq 0 (length (pushed F ops)) /\
+    length (h_children F (run_h F merge offload mem group ops)) = length (pushed F ops).
+Proof. exact leaves_exact. Qed.
+
+(* ---- the combined filter (optional Bloom + key range) meets those hypotheses, for every hash family ---- *)
+Theorem C10_combined_no_false_negative :
+  forall (hash : N -> bytes -> N) (kbytes : N -> bytes) (f : combined) (ks : list N) (k : N),
+    cf_wf f -> In k ks -> cf_contains hash kbytes (fold_left (cf_add hash kbytes) ks f) k = true.
+Proof. exact cf_add_contains. Qed.
+
+Theorem C10_combined_merge_keeps_keys :
+  forall (hash : N -> bytes -> N) (kbytes : N -> bytes) (a b c : combined) (k : N),
+    cf_wf a -> cf_wf b -> cf_merge a b = Some c ->
+    cf_contains hash kbytes a k = true \/ cf_contains hash kbytes b k = true -> cf_contains hash kbytes c k = true.
+Proof. exact cf_merge_sound. Qed.
+
+(* ---- the instance that is extracted and compared with HierarchicalFilters<_, CombinedFilter, _> on every run:
+   a present child built from keys ks is yielded for every k in ks by the iterator (check_filter_fast, the read
+   paths) and the asynchronous check_filter answers "maybe" ---- *)
+Theorem C10_blob_groups_no_false_negative :
+  forall (K : N) (group : nat) (ops : list (hop combined)) (c : nat) (f0 : combined) (ks : list N) (k : N),
+    (0 < group)%nat -> Forall cf_wf (pushed combined ops) ->
+    nth_error (pushed combined ops) c = Some (fold_left (cf_add bloom_hash (ckey_bytes K)) ks f0) ->
+    cf_wf f0 -> In k ks -> present combined (ch_run K group ops) c = true ->
+    In c (ch_iter K (ch_run K group ops) k) /\ ch_check K (ch_run K group ops) k = true.
+Proof. exact ch_no_false_negative. Qed.
+
+(* non-vacuity of the hierarchy theorems: a concrete history (group 2, 100-bit blooms, a removal, a bounded off-load) *)
+Example C10_hierarchy_nonvacuous :
+  let f0 := cf_new (Some (bloom_new 100 2 (repeat 0 40))) in
+  let mk ks := fold_left (cf_add bloom_hash (ckey_bytes 4)) ks f0 in
+  let ops := [HPush _ (mk [1; 7]); HPush _ (mk [9]); HPush _ (mk [7; 300]); HRemove _ 0; HOffloadN _ 16 1] in
+  cf_wf f0 /\ ch_iter 4 (ch_run 4 2 ops) 7 = [1; 2]%nat /\ ch_iter 4 (ch_run 4 2 ops) 5 = [].
+Proof. split; [apply cf_new_wf; reflexivity | vm_compute; split; reflexivity]. Qed.
+
 (* non-vacuity: a concrete well-formed filter with 100 bits (not a multiple of 64) *)
 Example C10_nonvacuous : bloom_wf (bloom_new 100 2 (repeat 0 40)) /\ bl_bits (bloom_new 100 2 (repeat 0 40)) <> 0.
 Proof. split; [|discriminate]. cbn. split; [apply bv_new_wf; reflexivity|reflexivity]. Qed.
@@ -46,3 +106,8 @@ Print Assumptions C10_bloom_no_false_negative.
 Print Assumptions C10_bloom_fast_no_false_negative.
 Print Assumptions C10_file_probe_eq_memory_probe.
 Print Assumptions C10_bloom_merge_keeps_keys.
+Print Assumptions C10_hierarchy_never_hides_a_child.
+Print Assumptions C10_hierarchy_leaves_exact.
+Print Assumptions C10_combined_no_false_negative.
+Print Assumptions C10_combined_merge_keeps_keys.
+Print Assumptions C10_blob_groups_no_false_negative.
